@@ -24,6 +24,8 @@ def correspondence(ctx):
     st["sample"] = {"program": tl.render_prog(cases[-1])}
     return st, dis
 
+MAY_REJECT = "% (a diagnostic is an acceptable outcome for this program)\n"
+
 def _mon_chunk(args):
     seed, texts, H = args
     n = 0
@@ -36,6 +38,8 @@ def _mon_chunk(args):
             runs.append({"istop": r.choice(["UNSAT", "UNKNOWN"]), "imin": r.choice([0, 1]), "imax": H + 1})
         for kw in runs:
             c, bad = oracles.wellformed_violations(t, H, **kw)
+            if isinstance(t, str) and t.startswith(MAY_REJECT):
+                bad = [b for b in bad if b.get("what") != "exception RuntimeError"]
             n += c
             for b in bad:
                 b["text"] = t if isinstance(t, str) else "\n%%% next file\n".join(t)
@@ -68,6 +72,12 @@ def search(ctx, deep):
                 for sgn in ("", "-"):
                     texts.append("#program always. {{a}}. #program {}. {}p{} :- a. #program {}. {}p{}.".format(
                         p1, sgn, "'" * d1, p2, sgn, "'" * d2))
+    # user externals, also declared over past / initially atoms (which telingo may reject with a diagnostic — see MAY_REJECT)
+    for part in ("always", "dynamic", "initial"):
+        for ext in ("x", "'x", "''x", "_x", "x(1..2)", "'x(1)"):
+            for val in ("", " [true]", " [free]"):
+                use = "c :- " + ("'x" if "(" not in ext else "'x(1)") + "." if part != "initial" else "c :- x."
+                texts.append(MAY_REJECT + "#program always. {{a}}. #program {}. #external {}.{} #program always. {}".format(part, ext, val, use.replace("'x", "x") if part == "initial" else use))
     work = [(ctx.seed + j, c, 4) for j, c in enumerate(par.chunks(texts, ctx.jobs * 2))]
     nsets = 0
     fails = []
